@@ -357,6 +357,15 @@ def t1_common(site):
             r2 = _range_loop_var(site.body, ExprBuilder(site.body), a[1][2][0])
             if r2 and not r2[2] and r2[1][0] == "len" and canon(r2[1][1]) == canon(a[0]):
                 return "range bound is a loop variable below len() of the sliced object"
+    if site.kind == "index":
+        # the second half of x.split_at(len(x)/c) sliced `[..len(x)/c]`: it has len - len/c >= len/c
+        # elements for c >= 2
+        a = x.get("args") or []
+        if len(a) == 2 and a[1][0] == "agg" and a[1][1].endswith("RangeTo::RangeTo") and a[1][2]:
+            obj, end = a[0], a[1][2][0]
+            if obj[0] == "field" and obj[2] == "1" and obj[1][0] == "call" and "split_at" in obj[1][1] and len(obj[1][2]) == 2 and canon(obj[1][2][1]) == canon(end) \
+                    and end[0] == "bin" and end[1] == "Div" and end[2][0] == "len" and canon(end[2][1]) == canon(obj[1][2][0]) and end[3][0] == "c" and end[3][1] >= 2:
+                return "second half of x.split_at(len(x)/c) sliced [..len(x)/c]: len - len/c >= len/c"
     if site.kind == "slice-api" and site.api and "copy_from_slice" in site.api:
         a = x.get("args") or []
         if len(a) == 2:
